@@ -184,12 +184,16 @@ def r3_clock_table(L, repo):
         return ("other", canon(st)[:50])
 
     W = Walker(event, subst)
-    atoms, rows = W.table(blk.body)
     A_R, A_I, A_G, A_N = "self.running", "self.clck_if in self.clck_gen.clck_links", \
         "self.clck_gen.running", "self.clck_gen.clck_links"
-    L.require("C12.R3", F, fn, "atoms of the clock decision table", sorted([A_R, A_I, A_G, A_N]), sorted(atoms))
-    if sorted(atoms) != sorted([A_R, A_I, A_G, A_N]):
-        return
+    atoms = W.atoms(blk.body)
+    unknown = [a for a in atoms if a not in (A_R, A_I, A_G, A_N)]
+    for a in (A_R, A_I, A_G, A_N):
+        if a not in atoms:
+            atoms.append(a)
+    # conditions outside the specified four are kept as extra columns: a row only passes if the actions are
+    # the specified ones whatever the extra condition's value
+    atoms, rows = W.table(blk.body, atoms)
     # all other statements of the function that call clock actions must be inside the block
     for c in calls_in(fd):
         t = canon(c, subst)
@@ -213,8 +217,9 @@ def r3_clock_table(L, repo):
         elif a[A_G] and not a[A_N]:
             want.append("stop")
         n += 1
-        L.require("C12.R3", F, fn, "clock decision row running=%d linked=%d gen_running=%d links_nonempty=%d" % (
-            a[A_R], a[A_I], a[A_G], a[A_N]), want, list(ev))
+        extra = "".join(" %s=%d" % (u[:40], a[u]) for u in unknown)
+        L.require("C12.R3", F, fn, "clock decision row running=%d linked=%d gen_running=%d links_nonempty=%d%s" % (
+            a[A_R], a[A_I], a[A_G], a[A_N], extra), want, list(ev))
     L.floor("C12.R3", "decision-table rows", n, 16)
     # order: link update statements precede start/stop statements
     order = []
@@ -296,34 +301,42 @@ def r4_power_cmds(L, repo):
                 return "poweron"
             return None
         W = Walker(ev)
-        atoms, rows = W.table(br[0].body)
         want_atoms = ["self.trx.ready", "self.trx.running"]
-        L.require("C12.R4", FT, fn, "atoms of the POWERON decision", want_atoms, sorted(atoms))
-        if sorted(atoms) == want_atoms:
-            for vals, evs in sorted(rows.items()):
-                a = dict(zip(atoms, vals))
-                if not a["self.trx.running"] and a["self.trx.ready"]:
-                    want = ("poweron", ("ret", "0"))
-                else:
-                    want = (("ret", "-1"),)
-                L.require("C12.R4", FT, fn, "POWERON with running=%d ready=%d" % (a["self.trx.running"], a["self.trx.ready"]),
-                          want, evs)
+        atoms = W.atoms(br[0].body)
+        unknown = [a for a in atoms if a not in want_atoms]
+        for a in want_atoms:
+            if a not in atoms:
+                atoms.append(a)
+        atoms, rows = W.table(br[0].body, atoms)
+        for vals, evs in sorted(rows.items()):
+            a = dict(zip(atoms, vals))
+            if not a["self.trx.running"] and a["self.trx.ready"]:
+                want = ("poweron", ("ret", "0"))
+            else:
+                want = (("ret", "-1"),)
+            extra = "".join(" %s=%d" % (u[:40], a[u]) for u in unknown)
+            L.require("C12.R4", FT, fn, "POWERON with running=%d ready=%d%s" % (a["self.trx.running"], a["self.trx.ready"], extra),
+                      want, evs)
     else:
         L.require("C12.R4", FT, fn, "POWERON branch found", 1, len(br))
     # ready: decision table over (rx None, tx None, fh None)
     ci2, rd = repo.need_method("transceiver", "Transceiver", "ready")
     W = Walker(lambda st: ("ret", canon(st.value)) if isinstance(st, ast.Return) else None)
-    atoms, rows = W.table(rd.body)
     want_atoms = ["None is self._rx_freq", "None is self._tx_freq", "None is self.fh"]
-    L.require("C12.R4", F, "Transceiver.ready", "atoms of `ready`", want_atoms, sorted(atoms))
-    if sorted(atoms) == want_atoms:
-        for vals, evs in sorted(rows.items()):
-            a = dict(zip(atoms, vals))
-            tuned = not a["None is self._rx_freq"] and not a["None is self._tx_freq"]
-            hop = not a["None is self.fh"]
-            want = (("ret", "True" if (tuned or hop) else "False"),)
-            L.require("C12.R4", F, "Transceiver.ready", "ready with rx_unset=%d tx_unset=%d fh_unset=%d" % (
-                a["None is self._rx_freq"], a["None is self._tx_freq"], a["None is self.fh"]), want, evs)
+    atoms = W.atoms(rd.body)
+    unknown = [a for a in atoms if a not in want_atoms]
+    for a in want_atoms:
+        if a not in atoms:
+            atoms.append(a)
+    atoms, rows = W.table(rd.body, atoms)
+    for vals, evs in sorted(rows.items()):
+        a = dict(zip(atoms, vals))
+        tuned = not a["None is self._rx_freq"] and not a["None is self._tx_freq"]
+        hop = not a["None is self.fh"]
+        want = (("ret", "True" if (tuned or hop) else "False"),)
+        extra = "".join(" %s=%d" % (u[:40], a[u]) for u in unknown)
+        L.require("C12.R4", F, "Transceiver.ready", "ready with rx_unset=%d tx_unset=%d fh_unset=%d%s" % (
+            a["None is self._rx_freq"], a["None is self._tx_freq"], a["None is self.fh"], extra), want, evs)
 
 
 def lin(e, env=None):
